@@ -22,7 +22,7 @@ if '--scratch' in args:
     open(scratch + '/native/Cargo.toml', 'w').write(open(V + '/native/Cargo.toml').read().replace('path = "/repo"', 'path = "%s/repo"' % scratch))
     os.environ['VERIF_REPO'] = scratch + '/repo'
     os.environ['VERIF_NATIVE_DIR'] = scratch + '/native'
-ids = args or sorted(d for d in os.listdir(os.path.join(V, 'seeded')) if not d.startswith('_'))
+ids = args or sorted(d for d in os.listdir(os.path.join(V, 'seeded')) if not d.startswith('_') and os.path.isdir(os.path.join(V, 'seeded', d)))
 res_path = os.path.join(V, 'seeded', 'results.json')
 results = json.load(open(res_path)) if os.path.exists(res_path) else {}
 assert scratch or subprocess.run('git -C /repo status --porcelain --untracked-files=no', shell=True, capture_output=True, text=True).stdout.strip() == '', '/repo not clean'
